@@ -24,9 +24,72 @@ def mk_lc(name):
     return Struct("r1cs::linear_combination::LinearCombination", {"terms": Vec([Seg(t, lambda j: Tup([Opaque("var", lc=name, j=j), Sc(sfun("coef_" + name)(j))]))])})
 
 
+# How "no half-open gate" / "half-open gate i" are represented is the crate's private business (an Option<usize> on the
+# reviewed tree).  Both representations are read off the code: the empty one from the constructor, the half-open one from
+# the state one `allocate` leaves behind on an empty system (its integer leaf is the gate index).
+_REPR = {}
+
+
+def _int_leaves(v):
+    if isinstance(v, IntV):
+        return [v]
+    if isinstance(v, Enum):
+        return [y for x in v.payload for y in _int_leaves(x)]
+    if isinstance(v, Struct):
+        return [y for x in v.fields.values() for y in _int_leaves(x)]
+    if isinstance(v, Tup):
+        return [y for x in v.items for y in _int_leaves(x)]
+    return []
+
+
+def _with_leaf(v, new):
+    if isinstance(v, IntV):
+        return new
+    if isinstance(v, Enum):
+        return Enum(v.path, v.variant, [_with_leaf(x, new) for x in v.payload])
+    if isinstance(v, Struct):
+        return Struct(v.path, {k: _with_leaf(x, new) for k, x in v.fields.items()})
+    if isinstance(v, Tup):
+        return Tup([_with_leaf(x, new) for x in v.items])
+    return v
+
+
+def _shape(v):
+    """value with its integer leaves blanked: two pending values of the same shape differ only in the gate index"""
+    return repr(_with_leaf(v, IntV(sp.Symbol("_"))))
+
+
+def pending_reprs(F, role):
+    key = (id(F), role)
+    if key in _REPR:
+        return _REPR[key]
+    none = Enum("Option", "None", [])
+    some = Enum("Option", "Some", [IntV(c)])
+    try:
+        I = H.new_interp(F)
+        args = [H.mk_pc_gens(), Tr("ctor")] if role == "prover" else [Tr("ctor")]
+        st0 = I.call_fn((H.P_PRV if role == "prover" else H.P_VER) + "new", args)
+        cand = st0.fields.get("pending_multiplier") if isinstance(st0, Struct) else None
+        if cand is not None and not _int_leaves(cand):
+            none = cand
+            _REPR[key] = (none, some)  # provisional: state() below needs the empty representation
+            R = run_method(F, role, "allocate", None)
+            pm = R["state"].fields["pending_multiplier"]
+            if len(_int_leaves(pm)) == 1:
+                some = pm
+    except (Unanalysable, FX.AnchorMissing, KeyError):
+        pass
+    _REPR[key] = (none, some)
+    return _REPR[key]
+
+
+_CUR_F = [None]
+
+
 def state(role, pending):
     cons = Vec([Seg(q, lambda j: Opaque("lc", j=j))])
-    pend = Enum("Option", "None", []) if pending is None else Enum("Option", "Some", [IntV(pending)])
+    none, some = pending_reprs(_CUR_F[0], role) if _CUR_F[0] is not None else (Enum("Option", "None", []), Enum("Option", "Some", [IntV(c)]))
+    pend = none if pending is None else _with_leaf(some, IntV(pending))
     if role == "prover":
         sec = Struct("r1cs::prover::Secrets", {"a_L": H.sc_vec("aL", c), "a_R": H.sc_vec("aR", c), "a_O": H.sc_vec("aO", c), "v": H.sc_vec("v", isym("m")), "v_blinding": H.sc_vec("vb", isym("m"))})
         return Struct("r1cs::prover::Prover", {"transcript": Tr("main"), "pc_gens": H.mk_pc_gens(), "constraints": cons, "secrets": sec, "deferred_constraints": Vec([]), "pending_multiplier": pend})
@@ -46,6 +109,7 @@ def opt_param(name):
 
 
 def run_method(F, role, method, pending, args_kind="some"):
+    _CUR_F[0] = F
     path = (PRV if role == "prover" else VER) + method
     F.fn(path)
     I = H.new_interp(F)
@@ -108,9 +172,19 @@ def ret_summary(ret):
 
 def pending_summary(st):
     pm = st.fields["pending_multiplier"]
-    if isinstance(pm, Enum):
-        return (pm.variant, str(sp.expand(pm.payload[0].e)) if pm.payload else None)
+    role = "prover" if st.path.endswith("Prover") else "verifier"
+    none, some = pending_reprs(_CUR_F[0], role) if _CUR_F[0] is not None else (Enum("Option", "None", []), Enum("Option", "Some", [IntV(c)]))
+    lv = _int_leaves(pm)
+    if not lv and _shape(pm) == _shape(none):
+        return ("None", None)
+    if len(lv) == 1 and _shape(pm) == _shape(some):
+        return ("Some", str(sp.expand(lv[0].e)))
     return repr(pm)
+
+
+def is_empty_pending(pm, role):
+    none, _ = pending_reprs(_CUR_F[0], role) if _CUR_F[0] is not None else (Enum("Option", "None", []), None)
+    return not isinstance(pm, Opaque) and not _int_leaves(pm) and _shape(pm) == _shape(none)
 
 
 def cons_summary(st):
@@ -119,6 +193,7 @@ def cons_summary(st):
 
 
 def summary(F, role, method, pending):
+    _CUR_F[0] = F
     R = run_method(F, role, method, pending)
     st = R["state"]
     cl, cr, co = count_of(role, st)
@@ -155,6 +230,7 @@ def wrapper_delegates(F, wpath_prefix, inner_field, method):
 
 
 def multiply_constraint_rules(ck, F, rule):
+    _CUR_F[0] = F
     """both roles' multiply records exactly `left - l_var = 0` and `right - r_var = 0` (content, not only count)"""
     for role in ("prover", "verifier"):
         R = run_method(F, role, "multiply", None)
@@ -177,6 +253,7 @@ def multiply_constraint_rules(ck, F, rule):
 
 
 def phase_separator_rule(ck, F, rule):
+    _CUR_F[0] = F
     """`r1cs-1phase` is absorbed exactly when no randomized callback is registered, `r1cs-2phase` (then the callbacks)
     exactly when at least one is -- on both roles, so that the same circuit takes the same branch"""
     from ..alg import Bounds, Bytes
@@ -203,6 +280,7 @@ def phase_separator_rule(ck, F, rule):
 
 
 def callbacks_rule(ck, F, rule):
+    _CUR_F[0] = F
     """create_randomized_constraints invokes every deferred callback exactly once, in order, on both roles"""
     for role, prefix in (("prover", H.P_PRV), ("verifier", H.P_VER)):
         I = H.new_interp(F)
@@ -222,6 +300,7 @@ def callbacks_rule(ck, F, rule):
 
 
 def constrain_rules(ck, F, rule):
+    _CUR_F[0] = F
     """constrain(lc) appends exactly the given linear combination, unconditionally, on both roles"""
     for role in ("prover", "verifier"):
         try:
@@ -237,6 +316,7 @@ def constrain_rules(ck, F, rule):
 
 
 def body(ck, F, cfg):
+    _CUR_F[0] = F
     if _TIER == "thorough" and cfg == "default":
         from .. import witness
 
@@ -314,14 +394,14 @@ def body(ck, F, cfg):
         st.fields["deferred_constraints"] = Vec.atom("cb", isym("ncb"), mk=lambda e_: Opaque("callback", id=e_))
         ret = I.call_fn(prefix + "create_randomized_constraints", [st])
         ck.fn(prefix + "create_randomized_constraints")
-        okc = bool(seen) and all(isinstance(x, Enum) and x.variant == "None" for x in seen)
+        okc = bool(seen) and all(is_empty_pending(x, role) for x in seen)
         ck.require(okc, "R16.4", f"phase-switch:{role}", f"the pending gate must be cleared before the first randomized callback; callbacks saw {seen}")
         # also cleared when there are no callbacks (1-phase branch)
         I2 = H.new_interp(F)
         st2 = state(role, p)
         ret2 = I2.call_fn(prefix + "create_randomized_constraints", [st2])
         pm = st2.fields["pending_multiplier"]
-        ck.require(isinstance(pm, Enum) and pm.variant == "None", "R16.4", f"phase-switch-no-callbacks:{role}", f"the pending gate must also be cleared when there are no randomized callbacks; pending after the switch: {pm!r}")
+        ck.require(is_empty_pending(pm, role), "R16.4", f"phase-switch-no-callbacks:{role}", f"the pending gate must also be cleared when there are no randomized callbacks; pending after the switch: {pm!r}")
     # R16.6 wrappers delegate 1:1
     n_del = 0
     for wp, inner in ((RPRV, "prover"), (RVER, "verifier")):
